@@ -108,6 +108,21 @@ def gen_cases(ctx):
         t["coef"] = a
         s = [float2bits(bits2float(a[0]) + bits2float(b[0])), float2bits(bits2float(a[1]) + bits2float(b[1]))]
         mk("group", n, t, b=b, sum=s)
+    # call history: the same string exponentiated first with OTHER coefficients on the same thread (real and imaginary part exchanged,
+    # both negated, equal parts, the same value) - a remembered cosh / sinh must never be handed to a different exponent
+    for n in (1, 2, 3):
+        for (a, b) in ((0.3, 0.7), (0.25, 0.25), (-1.5, -1.5), (1.1, -0.4), (0.0, 0.9), (0.6, 0.0)):
+            t = rand_string(rng, n, allow_empty=False)
+            t["coef"] = [float2bits(a), float2bits(b)]
+            others = [[float2bits(b), float2bits(a)], [float2bits(-a), float2bits(-b)], [float2bits(0.8), float2bits(0.8)], [float2bits(a), float2bits(b)], [float2bits(a), float2bits(-b)]]
+            for prev in ([others[0]], [others[1]], [others[2]], others):
+                mk("exp", n, t, prev=prev)
+                mk("exp_factor", n, t, factor=[float2bits(1.0), float2bits(0.0)], prev=prev)
+    # inside pools of 3 / 5 / 6 workers, on both paths
+    for k in (3, 5, 6):
+        for n in (4, 5, 6):
+            t = rand_string(rng, n, allow_empty=False); t["coef"] = coef_for_exp(rng, "generic")
+            mk("exp", n, t, in_pool=k); mk("exp_factor", n, t, factor=coef_for_exp(rng, "imag"), in_pool=k)
     return cases
 
 def nterms_for(alpha):
@@ -129,6 +144,7 @@ def brief(case):
     for k in ("factor", "b", "sum"):
         if k in case: b[k] = [bits2float(x) for x in case[k]]
     if "dt" in case: b["dt"] = bits2float(case["dt"])
+    if "prev" in case: b["exponentiated_before_with"] = [[bits2float(x) for x in z] for z in case["prev"]]
     return b
 
 def run_cases(ctx, cases):
